@@ -393,10 +393,19 @@ def p3_delete_frees(prog):
             elif bad:
                 r.viol('P3', f.path + '/free-not-in-loop', f.loc(), bad)
         if f.path in ('archetype::Archetype::<R>::clear_detached', 'archetype::Archetype::<R>::pop_row_unchecked'):
-            body = f.body
             r.inst('%s: must not free' % f.path)
-            for b, t in body.calls(lambda c: c['name'] in ('free_unchecked', 'deactivate')):
-                r.viol('P3', f.path + '/frees', f.loc(t['ln']), 'a move/detached clear must not free identifiers')
+            # on feasible paths only: a shared helper taking `Option<&mut Allocator>` frees under `Some`, which the
+            # detached twin never passes
+            Ed = pathsem.analyse(prog, f)
+            hit = None
+            for p in Ed.paths:
+                if p.ended not in ('return', 'cutoff'):
+                    continue
+                fr = p.calls(lambda e: e['name'] in ('free_unchecked', 'deactivate'))
+                if fr:
+                    hit = fr[0]
+            if hit is not None or Ed.truncated:
+                r.viol('P3', f.path + '/frees', f.loc(hit['ln'] if hit else None), 'a move/detached clear must not free identifiers')
     return r
 
 
